@@ -669,7 +669,7 @@ Theorem decorate_rejected_frame : forall st s p e st',
   decorate st s p = (VErr e, st') -> st' = st.
 Proof.
   intros st s p e st' H. unfold decorate in H.
-  destruct (existsb _ _); inversion H; reflexivity.
+  destruct (negb _ || existsb _ _); inversion H; reflexivity.
 Qed.
 Print Assumptions decorate_rejected_frame.
 
@@ -684,12 +684,12 @@ Print Assumptions bad_frame.
 Lemma decorate_no_event : forall st s p v st', decorate st s p = (v, st') -> st_log st' = st_log st.
 Proof.
   intros st s p v st' H. unfold decorate in H.
-  destruct (existsb _ _); inversion H; reflexivity.
+  destruct (negb _ || existsb _ _); inversion H; reflexivity.
 Qed.
 
 Lemma decorate_never_aborts : forall st s p x st', decorate st s p <> (VAbort x, st').
 Proof.
-  intros st s p x st' H. unfold decorate in H. destruct (existsb _ _); discriminate.
+  intros st s p x st' H. unfold decorate in H. destruct (negb _ || existsb _ _); discriminate.
 Qed.
 
 (* ================================================================== *)
@@ -1337,7 +1337,7 @@ Theorem SInv_decorate : forall st s p v st',
   SInv st -> s < length (st_scopes st) -> decorate st s p = (v, st') -> SInv st'.
 Proof.
   intros st s p v st' HS Hs H. unfold decorate in H.
-  destruct (existsb _ _); inversion H; subst; clear H; [exact HS|].
+  destruct (negb _ || existsb _ _); inversion H; subst; clear H; [exact HS|].
   destruct HS as [HT [B1 B2 B3 B4 B5 B6]].
   set (d := length (st_decs st)) in *.
   set (dn := mkDNode (di_fn p) (di_sig p) s DReady (di_cb p)).
@@ -1608,7 +1608,7 @@ Proof.
   - apply new_scope_length.
   - destruct (provide cfg st s p) as [v st'] eqn:E. apply provide_aux in E.
     unfold aux in E. cbn [snd]. congruence.
-  - unfold decorate. destruct (existsb _ _); cbn [snd]; [reflexivity|].
+  - unfold decorate. destruct (negb _ || existsb _ _); cbn [snd]; [reflexivity|].
     rewrite upd_scope_length. reflexivity.
   - pose proof (skel_eq_fields _ _ (invoke_skel cfg b du st s p)) as H. apply H.
   - reflexivity.
@@ -2017,7 +2017,7 @@ Theorem VInv_decorate : forall st s p v st',
   decorate st s p = (v, st') -> (VInv st -> VInv st') /\ (AInv st -> AInv st').
 Proof.
   intros st s p v st' H. unfold decorate in H.
-  destruct (existsb _ _); inversion H; subst; clear H; [tauto|].
+  destruct (negb _ || existsb _ _); inversion H; subst; clear H; [tauto|].
   match goal with |- (_ -> VInv (upd_scope ?x s ?f)) /\ _ => set (st1 := x); set (F := f) end.
   assert (Hget : forall a, get_scope (upd_scope st1 s F) a =
                    if Nat.eqb a s && Nat.ltb s (length (st_scopes st)) then F (get_scope st a) else get_scope st a).
